@@ -21,6 +21,7 @@ EXPLANATION = (
     "ManuallyDrop, a raw pointer or NonNull, and behind MaybeUninit only the R6.1 buffers; R6.5 no live normal-path drop "
     "of a child-owning value outside Drop impls except the reasoned table (an exhausted group); outputs: C02 R2.5. "
     "NOT decided: exactly-once for every cancel point as a global fact (these are necessary conditions + language drop glue).")
+WITNESSES = "thorough"  # E3 compile_fail witnesses (tier in which they run)
 ASSUMPTIONS = [
     "dev-profile MIR at mir-opt-level=0 represents the source",
     "language drop glue drops Pin<Box<[Slot<F>]>>, BinaryHeap and Vec contents exactly once",
